@@ -40,7 +40,7 @@ var registry = []prop{
 		Assume: append([]string{"predicates are pure functions of the element shown (the scanner calls them from several goroutines)"}, pbfAssume...),
 	},
 	{
-		ID: "C09", Pkg: "props/c09", Level: "exploration",
+		ID: "C09", Pkg: "props/c09", Level: "exploration", Hang: true,
 		Quick:  tierCfg{Shards: 1, Scale: 1, TimeoutS: 300},
 		Thor:   tierCfg{Shards: 16, Scale: 4, TimeoutS: 1500},
 		Assume: pbfAssume,
